@@ -145,4 +145,8 @@ def runAll (nfa : Nfa) (cfg : Cfg) : Eng → List Ev → Option (Eng × List Out
     | none => none
     | some (s', o) => (runAll nfa cfg s' es).map fun (sf, os) => (sf, o :: os)
 
+/-- the matches emitted event by event (grouped per completing run) on a fresh engine; `none` = panic -/
+def emittedAll (nfa : Nfa) (cfg : Cfg) (evs : List Ev) : Option (List (List (List Match))) :=
+  (runAll nfa cfg {} evs).map fun r => r.2.map (·.emitted)
+
 end Varpulis.SaseB
